@@ -24,7 +24,7 @@ RULE = (
     "reference-VALID, or reference-INVALID at a step > 1 or by unsatisfied goals after >= 1 applicable step, or the empty plan on a problem with a metric."
 )
 ASSUMPTIONS = ["problems whose initial state violates bounds/invariants, or that the simulator rejects, are counted as rejected", "metric expression reading an undefined fluent: don't-care"]
-BOUNDS = {"quick": dict(n=320, L=3, cap=60), "thorough": dict(n=5000, L=4, cap=300)}
+BOUNDS = {"quick": dict(n=320, L=3, cap=60, deep=44), "thorough": dict(n=5000, L=4, cap=300, deep=60)}
 METRICS = [None, "costs", "length", "minfinal", "maxfinal", "oversub"]
 
 
@@ -47,7 +47,7 @@ def replay(witness, res):
     if witness.get("corpus"):
         run_corpus(res, only=witness["corpus"])
     else:
-        run_case(witness["case_key"], witness.get("tier", "quick"), res, only_plan=witness.get("plan"))
+        run_case(witness["case_key"], witness.get("tier", "quick"), res, only_plan=None if witness.get("observation_goal_prefix") else witness.get("plan"))
 
 
 def metric_value(pb, metric, steps, states):
@@ -207,6 +207,51 @@ def run_case(key, tier, res, only_plan=None):
     plans, exhaustive = all_or_sampled(rng, insts, b["L"], b["cap"])
     goal, nongoal = executable_sequences(pb, insts, b["L"], cap_nodes=600, want=6)
     plans = [[]] + [p for p in plans if p] + goal + nongoal
+    # one deep executable plan (beyond UPState's ancestor-flattening depth of 20), found by a reference-guided random walk
+    deep, s = [], rs0
+    for _ in range(b.get("deep", 0)):
+        cands = [(a, args, r) for a, args in insts for r in [seqsem.succ(pb, s, a, args)] if r.status == seqsem.OKAY]
+        changing = [c for c in cands if c[2].info.get("changed")]
+        pool = changing if changing and rng.random() < 0.85 else cands
+        if not pool:
+            break
+        a, args, r = rng.choice(pool)
+        deep.append((a, args))
+        s = r.state
+    if len(deep) > 20:
+        res.count("deep_plans")
+        plans.append(deep)
+        # observation goals: a copy of the problem whose goal pins every defined ground fluent to the reference final state of a
+        # deep prefix must make that prefix VALID; any divergence of the validator's internal state becomes visible in the status
+        ks = sorted({len(deep)} | {k for k in (21, 22, 23, 26, 31, 41) if k <= len(deep)})
+        for k in ks:
+            pref = deep[:k]
+            st, states, idx, r = seqsem.run_plan(pb, pref)
+            if st != seqsem.OKAY:
+                continue
+            pb2 = pb.clone()
+            pb2.clear_goals()
+            pb2.clear_quality_metrics()
+            em = pb.environment.expression_manager
+            for f, args in gfl:
+                if (f.name, args) not in states[-1]:
+                    continue
+                fe = seqsem.fexp(pb, f, args)
+                v = states[-1][(f.name, args)]
+                if f.type.is_bool_type():
+                    pb2.add_goal(fe if v else em.Not(fe))
+                elif f.type.is_user_type():
+                    pb2.add_goal(em.Equals(fe, em.ObjectExp(pb.object(v))))
+                else:
+                    pb2.add_goal(em.Equals(fe, em.Real(Fraction(v)) if Fraction(v).denominator != 1 else em.Int(int(v))))
+            res.count("observation_goal_validations")
+
+            def viol2(mech, summary, **w):
+                viol("deep-state:" + mech, summary + " [goal replaced by the reference final state of the prefix]", observation_goal_prefix=k, **w)
+
+            out = judge_call(pb2, [(pb2.action(a.name), args) for a, args in pref], res, viol2, "deep", pid + ":obs")
+            if out == "violation":
+                return
     seen = set()
     sampled = False
     for steps in plans:
@@ -267,6 +312,10 @@ def thresholds(m):
     for mk in ("MinimizeActionCosts", "MinimizeSequentialPlanLength", "MinimizeExpressionOnFinalState", "MaximizeExpressionOnFinalState", "Oversubscription"):
         if c.get("valid_with_metric:" + mk, 0) < 2:
             out.append(f"fewer than 2 VALID plans with metric {mk} ({c.get('valid_with_metric:' + mk, 0)})")
+    if c.get("observation_goal_validations", 0) < 30:
+        out.append("fewer than 30 observation-goal validations of deep prefixes")
+    if c.get("deep_plans", 0) < 10:
+        out.append("fewer than 10 plans longer than 20 steps")
     if c.get("agree_invalid", 0) < 20 or c.get("agree_valid", 0) < 20:
         out.append("fewer than 20 agreed VALID or INVALID verdicts")
     return out
